@@ -255,7 +255,7 @@ class Watchdog:
     def _handler(self, signum: int, frame: Any) -> None:
         where = []
         f = frame
-        while f is not None and len(where) < 6:
+        while f is not None and len(where) < 60:
             where.append(f'{f.f_code.co_filename}:{f.f_lineno}:{f.f_code.co_name}')
             f = f.f_back
         handle = getattr(self.loop, '_current_handle', None)
